@@ -3,6 +3,7 @@ import XV.Model.Decimal
 import XV.Spec.Decimal
 import XV.Model.DateTime
 import XV.Spec.DateTime
+import XV.Spec.Duration
 import XV.Spec.Ws
 import XV.Model.Facets
 import XV.Spec.Facets
@@ -117,6 +118,10 @@ def dateCmp (kind : String) (a b : XV.Spec.DateTime.Raw) : Int :=
   match XV.Spec.DateTime.specOrder (dtKind kind) a b with
   | .lt => -1 | .eq => 0 | .gt => 1 | .indeterminate => 2
 
+def durCmp (a b : XV.Spec.Duration.Dur) : Int :=
+  match XV.Spec.Duration.durOrder a b with
+  | .lt => -1 | .eq => 0 | .gt => 1 | .indeterminate => 2
+
 def strCmp (a b : List Nat) : Int := if a == b then 0 else 1
 
 /-- decidable version of `stepOk` -/
@@ -155,6 +160,13 @@ partial def specEval (t : TExpr) (u : List Nat) : Verdict :=
         match specDate kind (wsCollapse u) with
         | none => (true, false)
         | some v => (true, ss.all (fun s => stepOkB (dateCmp kind) (fun _ => (0, 0)) (fun _ => 0) s v))
+    else if kind == "duration" then
+      match steps.mapM (mkStep XV.Spec.Duration.parse) with
+      | none => (false, false)
+      | some ss =>
+        match XV.Spec.Duration.parse (wsCollapse u) with
+        | none => (true, false)
+        | some v => (true, ss.all (fun s => stepOkB durCmp (fun _ => (0, 0)) (fun _ => 0) s v))
     else
       let norm : List Nat → List Nat := if kind == "token" then wsCollapse else id
       match steps.mapM (mkStep (fun x => some (norm x))) with
@@ -197,6 +209,10 @@ partial def modelEval (t : TExpr) (u : List Nat) : Verdict :=
       match steps.mapM (mkStep (specDate kind)) with
       | none => (false, false)
       | some ss => (validFrom (dateCmp kind) (fun _ => (0, 0)) {} ss, (specEval t u).2)
+    else if kind == "duration" then
+      match steps.mapM (mkStep XV.Spec.Duration.parse) with
+      | none => (false, false)
+      | some ss => (validFrom durCmp (fun _ => (0, 0)) {} ss, (specEval t u).2)
     else
       let norm : List Nat → List Nat := if kind == "token" then wsCollapse else id
       match steps.mapM (mkStep (fun x => some (norm x))) with
